@@ -19,7 +19,8 @@ META = {
         "accumulates across iterations). (5) write discipline per plugin entry point: the written file names are "
         "model-independent constants, or a cleanup() whose glob suffix equals the suffix of every written name "
         "precedes all writes in the entry function (so files owned by the plugin from an earlier model do not "
-        "survive)."),
+        "survive)."
+        "(6) the rust plugin's update of an existing test harness (generate_test_code) is folded on a synthetic file: markers and surroundings survive, and the result for a model does not depend on what an earlier run left between the markers. A write that is skipped under a condition is reported for constant names too; the uuid call may sit in a function / partial that is only ever used to define id_ fields."),
     "trusted_base": ["dict preserves insertion order; sorted() is deterministic; hashlib digests depend on content only"],
     "assumptions": ["functions are resolved by name across generator/ (names are unique there; ambiguity is an analysis error)"],
     "not_decided": ["byte-identity of the output itself (needs running the plugins)"],
